@@ -42,6 +42,14 @@ ANCHORS = [
     ("src/easynetwork/clients/async_tcp.py", "AsyncTCPNetworkClient.recv_packet"),
     ("src/easynetwork/clients/async_tcp.py", "AsyncTCPNetworkClient.__convert_socket_error"),
     ("src/easynetwork/clients/async_tcp.py", "AsyncTCPNetworkClient.__ensure_connected"),
+    ("src/easynetwork/lowlevel/api_async/backend/_asyncio/stream/socket.py", "StreamReaderBufferedProtocol.get_buffer"),
+    ("src/easynetwork/lowlevel/api_async/backend/_asyncio/stream/socket.py", "StreamReaderBufferedProtocol.buffer_updated"),
+    ("src/easynetwork/lowlevel/api_async/backend/_asyncio/stream/socket.py", "StreamReaderBufferedProtocol.eof_received"),
+    ("src/easynetwork/lowlevel/api_async/backend/_asyncio/stream/socket.py", "StreamReaderBufferedProtocol.receive_data"),
+    ("src/easynetwork/lowlevel/api_async/backend/_asyncio/stream/socket.py", "StreamReaderBufferedProtocol.receive_data_into"),
+    ("src/easynetwork/lowlevel/api_async/backend/_asyncio/stream/socket.py", "StreamReaderBufferedProtocol._wait_for_data"),
+    ("src/easynetwork/lowlevel/api_async/backend/_asyncio/stream/socket.py", "AsyncioTransportStreamSocketAdapter.recv"),
+    ("src/easynetwork/lowlevel/api_async/backend/_asyncio/stream/socket.py", "AsyncioTransportStreamSocketAdapter.recv_into"),
     ("src/easynetwork/clients/_iter.py", "ClientRecvIterator.__next__"),
     ("src/easynetwork/clients/_iter.py", "AsyncClientRecvIterator.__anext__"),
     ("src/easynetwork/lowlevel/_utils.py", "ElapsedTime.recompute_timeout"),
@@ -55,6 +63,11 @@ RULE = ("stream = 0-3 frames (valid / undecodable / empty payload) + optional tr
         "(transport timeouts) inserted in every gap pattern for small cases; max_recv_size in {1,2,3,64} (so chunks "
         "are split by the receiver); call histories over timeouts {None, 0, >0} of length <= 5 followed by extra calls "
         "after end-of-stream; iter_received_packets histories; transport OSErrors for the clients' conversion. "
+        "End-to-end family: AsyncStreamEndpoint / AsyncTCPNetworkClient over the REAL asyncio stream transport "
+        "(StreamReaderBufferedProtocol + socket adapter; the harness plays the selector: level-triggered read events) with "
+        "sends, cancellation of the pending call (timeout) and new calls in every order inside one loop iteration, data "
+        "buffered in the protocol before a call, max_recv_size in {1,2,3,4,64}; the calls that return must deliver the "
+        "stream's events then end-of-stream (timeout_loses_nothing). "
         "Two-thread histories: the REAL TCPNetworkClient.recv_packet (receive lock replaced by an instrumented "
         "threading.Lock, every transport call parked until served) driven by 2 gated threads through schedules in which "
         "the second call starts while the first is parked in the transport, several packets arriving in one segment. "
@@ -636,9 +649,208 @@ def run_threads(inp):
     return out
 
 
+# ---------------------------------------------------------------- end-to-end over the REAL asyncio stream transport
+
+class KernelTransport:
+    """Stands for asyncio's selector socket transport + the kernel: bytes sent by the peer sit in [kbuf]; a read event
+    (level-triggered: one per loop iteration while bytes remain) does what _SelectorSocketTransport._read_ready__get_buffer
+    does: protocol.get_buffer(-1), recv_into, protocol.buffer_updated(n) / eof_received()."""
+
+    def __init__(self, loop):
+        self._loop = loop
+        self.kbuf = bytearray()
+        self.peer_closed = False
+        self.eof_delivered = False
+        self.closed = False
+        self.paused = False
+        self.scheduled = False
+        self.proto = None
+        self._sock = FakeSocket()
+
+    # -- asyncio.Transport surface used by the adapter / protocol
+    def get_extra_info(self, name, default=None):
+        return {"socket": self._sock, "sockname": self._sock.getsockname(), "peername": self._sock.getpeername()}.get(name, default)
+
+    def set_protocol(self, proto):
+        self.proto = proto
+
+    def get_protocol(self):
+        return self.proto
+
+    def is_closing(self):
+        return self.closed
+
+    def close(self):
+        if not self.closed:
+            self.closed = True
+            self._loop.call_soon(self.proto.connection_lost, None)
+
+    abort = close
+
+    def set_write_buffer_limits(self, high=None, low=None):
+        pass
+
+    def get_write_buffer_size(self):
+        return 0
+
+    def get_write_buffer_limits(self):
+        return (0, 0)
+
+    def can_write_eof(self):
+        return True
+
+    def write_eof(self):
+        pass
+
+    def write(self, data):
+        pass
+
+    def writelines(self, data):
+        pass
+
+    def is_reading(self):
+        return not self.paused and not self.closed
+
+    def pause_reading(self):
+        self.paused = True
+
+    def resume_reading(self):
+        self.paused = False
+        self.schedule_read()
+
+    # -- the loop's side
+    def schedule_read(self):
+        if not self.scheduled and not self.closed and not self.paused and \
+                (self.kbuf or (self.peer_closed and not self.eof_delivered)):
+            self.scheduled = True
+            self._loop.call_soon(self.read_ready, True)
+
+    def read_ready(self, auto=False):
+        if auto:
+            self.scheduled = False
+        if self.closed or self.paused:
+            return
+        if self.kbuf:
+            buf = self.proto.get_buffer(-1)
+            with memoryview(buf) as mv:
+                n = min(mv.nbytes, len(self.kbuf))
+                mv[:n] = self.kbuf[:n]
+            del buf
+            del self.kbuf[:n]
+            self.proto.buffer_updated(n)
+        elif self.peer_closed and not self.eof_delivered:
+            self.eof_delivered = True
+            if not self.proto.eof_received():
+                self.close()
+        self.schedule_read()
+
+
+async def _run_e2e(inp):
+    import asyncio
+    from easynetwork.clients.async_tcp import AsyncTCPNetworkClient
+    from easynetwork.lowlevel.api_async.backend._asyncio.stream.socket import (
+        AsyncioTransportStreamSocketAdapter, StreamReaderBufferedProtocol)
+    from easynetwork.lowlevel.api_async.backend.utils import new_builtin_backend
+    from easynetwork.lowlevel.api_async.endpoints.stream import AsyncStreamEndpoint
+
+    _tag, case, turns = inp[:3]
+    kind, cfg, _dec, _oracle, _calls, _mode, bufsize, api, impl = case[:9]
+    loop = asyncio.get_running_loop()
+    ktr = KernelTransport(loop)
+    proto = StreamReaderBufferedProtocol(loop=loop)
+    ktr.set_protocol(proto)
+    proto.connection_made(ktr)
+    if api == 1:
+        backend = _make_backend(None)
+        adapter = AsyncioTransportStreamSocketAdapter(backend, ktr, proto)
+        backend._tr = adapter
+        target = AsyncTCPNetworkClient(("127.0.0.1", 1), _protocol(kind, cfg, impl), backend, max_recv_size=bufsize)
+    else:
+        backend = new_builtin_backend("asyncio")
+        adapter = AsyncioTransportStreamSocketAdapter(backend, ktr, proto)
+        target = AsyncStreamEndpoint(adapter, _protocol(kind, cfg, impl), max_recv_size=bufsize)
+
+    tasks = []
+
+    def start_call():
+        if not tasks or tasks[-1].done():
+            tasks.append(loop.create_task(target.recv_packet()))
+
+    def cancel_call():
+        if tasks and not tasks[-1].done():
+            tasks[-1].cancel()
+
+    async def settle():
+        for _ in range(8):
+            await asyncio.sleep(0)
+
+    def outcome(t):
+        if t.cancelled():
+            return None
+        exc = t.exception()
+        if exc is None:
+            return [0, sc.canon_packet(t.result())]
+        return classify(exc)
+
+    try:
+        for turn in turns:
+            for act in turn:
+                if act[0] == 0:
+                    loop.call_soon(start_call)
+                elif act[0] == 1:
+                    loop.call_soon(cancel_call)
+                elif act[0] == 2:
+                    ktr.kbuf += act[1]
+                    loop.call_soon(ktr.read_ready)
+                else:
+                    ktr.peer_closed = True
+                    loop.call_soon(ktr.read_ready)
+            await settle()
+        ktr.peer_closed = True
+        ktr.schedule_read()
+        await settle()
+        for _ in range(64):
+            done = [outcome(t) for t in tasks if t.done()]
+            if [2] in done:
+                break
+            start_call()
+            await asyncio.wait([tasks[-1]])
+        out = []
+        for t in tasks:
+            if not t.done():
+                t.cancel()
+                continue
+            r = outcome(t)
+            if r is None:
+                continue
+            out.append(r)
+            if r == [2]:
+                break
+        return out
+    finally:
+        for t in tasks:
+            if not t.done():
+                t.cancel()
+        await target.aclose()
+
+
+def run_e2e(inp):
+    import asyncio
+    loop = _loop()
+    asyncio.set_event_loop(loop)
+    loop.steps = 0
+    loop._vtime = 0.0
+    try:
+        return loop.run_until_complete(_run_e2e(inp))
+    finally:
+        asyncio.set_event_loop(None)
+
+
 def run_impl(inp):
     with warnings.catch_warnings():
         warnings.simplefilter("ignore")
+        if inp[0] == 300:
+            return run_e2e(inp)
         if inp[0] == 200:
             return run_threads(inp)
         return run_blocking(inp) if inp[5] == 0 else run_async(inp)
@@ -814,9 +1026,54 @@ def _threaded_cases(tier, rng, escalate):
                        nontrivial=bool(len(head) >= 2 and head[0] != head[1]))
 
 
+def _e2e_cases(tier, rng, escalate):
+    """real asyncio transport: sends, read events, cancellations of the pending call and new calls in every order
+    inside one loop iteration; data buffered in the protocol before a call; max_recv_size around the buffered amount"""
+    thorough = tier == "thorough" or escalate
+    n = 6000 if thorough else 900
+    R, C, F = [0], [1], [3]
+    for fr in FRAMINGS[:3]:
+        pool = fr["valid"] + fr["bad"] + fr["empty"]
+        for _ in range(n // 3):
+            frames = [rng.choice(pool) for _ in range(rng.randint(1, 4))]
+            stream = b"".join(frames) + (rng.choice(fr["partial"]) if rng.random() < 0.3 else b"")
+            r = rng.random()
+            if r < 0.3:
+                chunks = [stream]
+            elif r < 0.45:
+                chunks = [stream[i:i + 1] for i in range(len(stream))]
+            else:
+                chunks = sc.cuts_to_chunks(stream, [c for c in range(1, len(stream)) if rng.random() < 0.4])
+            turns, flavours = [], set()
+            if rng.random() < 0.6:
+                turns.append([R])
+            for ch in chunks:
+                S = [2, ch]
+                pat = rng.choice(["S", "RS", "SR", "CS", "SC", "CSR", "SCR", "S", "SC", "CS"])
+                turn = [{"S": S, "R": R, "C": C}[x] for x in pat]
+                flavours.add(pat)
+                turns.append(turn)
+                if rng.random() < 0.5:
+                    turns.append([rng.choice([R, R, C])])
+            turns.append(rng.choice([[F], [F, C], [C, F], [R, F], [F, R]]))
+            buffered = rng.random() < 0.5
+            bufsize = rng.choice([1, 2, 3, 4, 64])
+            api = rng.choice([0, 1])
+            oracle = [[0, ch, 0] for ch in chunks] + [[1]]
+            case = mk(fr, buffered, oracle, [], 1, bufsize, api)
+            tags = ["real-asyncio-transport", fr["name"], "buffered" if buffered else "copying",
+                    "client" if api else "endpoint", f"bufsize{bufsize}"]
+            if flavours & {"CS", "CSR"}:
+                tags.append("cancel-then-read-event-same-iteration")
+            if flavours & {"SC", "SCR"}:
+                tags.append("read-event-then-cancel-same-iteration")
+            yield dict(input=[300, case, turns], tags=tags, nontrivial=bool(flavours - {"S"}))
+
+
 def cases(tier, rng, escalate):
     yield from _single_cases(tier, rng, escalate)
     yield from _threaded_cases(tier, rng, escalate)
+    yield from _e2e_cases(tier, rng, escalate)
 
 
 # ---------------------------------------------------------------- the property, stated on the implementation
@@ -860,7 +1117,22 @@ def _oracle_threads(inp):
     return None
 
 
+def _oracle_e2e(inp):
+    _tag, case, turns = inp[:3]
+    kind, cfg, _dec, orc, _calls, _mode, bufsize, api, impl = case[:9]
+    stream = _stream_of(orc)
+    expected, _left = sc.spec_events_py(kind, cfg, impl, stream)
+    exp = [[0, e[1]] if e[0] == 0 else [1, 1] for e in expected] + [[2]]
+    got = run_impl(inp)
+    if got != exp:
+        return (f"real asyncio transport: the calls that returned delivered {got}, the peer sent {exp[:-1]} then closed "
+                f"(cancelled calls must not lose or duplicate anything)")
+    return None
+
+
 def oracle(inp):
+    if inp[0] == 300:
+        return _oracle_e2e(inp)
     if inp[0] == 200:
         return _oracle_threads(inp)
     kind, cfg, _dec, orc, calls, mode, bufsize, api, impl = inp[:9]
@@ -912,6 +1184,16 @@ def signature(inp, failure):
 
 
 def shrink(inp):
+    if inp[0] == 300:
+        _tag, case, turns = inp[:3]
+        for i in range(len(turns)):
+            if not any(a[0] == 2 for a in turns[i]):
+                yield [300, case, turns[:i] + turns[i + 1:]]
+        for i in range(len(turns)):
+            for j in range(len(turns[i])):
+                if turns[i][j][0] != 2 and len(turns[i]) > 1:
+                    yield [300, case, turns[:i] + [turns[i][:j] + turns[i][j + 1:]] + turns[i + 1:]]
+        return
     if inp[0] == 200:
         _tag, case, sched, na, nb = inp
         for i in range(len(sched)):
